@@ -123,7 +123,7 @@ CLAIMS = {
          "R_::update/react/query, head vs sub-state order in C_/O_ and the 16 reaction wrappers, Initial-before-Remaining in OS_, consumption gating "
          "between any two consecutive deliveries (call-graph fixpoint mayDeliver/entryGated + path rule), active-prong origin, injected-base order, and that the "
          "configured reaction order reaches the machine through every Config option alias (type-level witness). "
-         "Judges the order of injected vs own handlers for query (down) and exitGuard (up) as well. Does not decide the relative order of injected bases vs own handler for query/exitGuard (reported).",
+         "Judges the order of injected vs own handlers for query (down) and exitGuard (up) as well.",
          "path/order rules + call-graph fixpoint over clang AST facts + static_assert witness decided by clang -fsyntax-only (static analysis)"),
 }
 NOTE = ("trusted: clang 14 front end, the hfx extractor (opaque constructs fail the run), the rule tables of DESIGN.md section 6; the quantifier over machine "
